@@ -154,4 +154,27 @@ theorem worker_eq (c : Cfg) (i : Nat) (hi : i < c.P) (nc_out nbytes ncv rms_nbyt
     push_cast
     simp only [Int.mul_assoc, List.cons_append, List.nil_append]
 
+/-! ### preparation of the files (translated from the body of `decompress_destripe_cbin` before `my_function`)
+
+The translated source is the list of truncations it performs followed by the three offsets it hands to the workers.
+`prepOf` reads that list as a `Prep` (a truncated file has size 0, the others keep their size). -/
+
+def prepOf (before : Sizes) (evs : List (String × List Int)) : Option Prep :=
+  let trunc (tag : String) : Bool := evs.any fun e => e.1 == tag
+  match evs.find? (fun e => e.1 == "offsets") with
+  | some (_, [o, r, t]) =>
+    some ⟨⟨if trunc "truncate_out" then 0 else before.out, if trunc "truncate_rms" then 0 else before.rms,
+           if trunc "truncate_time" then 0 else before.time⟩, o.toNat, r.toNat, t.toNat⟩
+  | _ => none
+
+theorem setup_fresh_eq (before : Sizes) :
+    prepOf before Src.C06.destripe_setup_fresh = some (prepare false before) := by
+  unfold Src.C06.destripe_setup_fresh prepOf prepare
+  simp [List.find?, List.any]
+
+theorem setup_append_eq (before : Sizes) (x : Int) :
+    prepOf before (Src.C06.destripe_setup_append before.out before.rms before.time x) = some (prepare true before) := by
+  unfold Src.C06.destripe_setup_append prepOf prepare
+  simp [List.find?, List.any]
+
 end IblVerif.Tie.C06
